@@ -40,6 +40,8 @@ STRINGS = [
     "C=[$]{[$][$]=CC=[$]; [$]=C, [$]=O[]}|uniform(20, 90)|",
     "CC{[$][$]CC[$][$]}|uniform(12, 72)|COOC{[$][$]C[$][$]}|uniform(12, 72)|CO",
     "[H]{[>][<]CC([>])c1ccccc1[<]}|poisson(300)|CC{[>][<]CC([>])C(=O)OC[<]}|log_normal(200, 1.2)|C",
+    # listed transitions that reach an end group during growth (growth and capping share one descriptor numbering)
+    "{[][$|4 4 1|]CC(C)[$|4 4 1|]; [$]O[]}|uniform(150, 250)|",
 ]
 # sibling strings: same fragments (identical fragment SMILES text), same descriptor texts, but descriptors on other atoms /
 # other weights: objects that a cache keyed too coarsely would confuse with the main string's tokens
@@ -50,6 +52,7 @@ SIBLINGS = {
     STRINGS[3]: "C=[$]{[$][$]=CCC=[$]; [$]=C, [$]=O[]}|uniform(20, 90)|",
     STRINGS[4]: "CC{[$][$]C([$])C[$]}|uniform(12, 72)|COOC{[$][$]C[$][$]}|uniform(12, 72)|CO",
     STRINGS[5]: "[H]{[>][<]CCc1ccccc1[>][<]}|poisson(300)|CC{[>][<]CCC(=O)OC[>][<]}|log_normal(200, 1.2)|C",
+    STRINGS[6]: "{[][$|4 4 1|]CCC[$|4 4 1|]; [$]O[]}|uniform(150, 250)|",
 }
 OPS = ["P", "G1", "G2", "GG", "S", "E", "M", "MM", "MS", "RG", "SG", "AG", "FF", "EP", "SY", "GB"]
 SEEDS = (1, 2, 4, 5)  # seeds 4 and 5 give a negative first gaussian draw for the wide law of the third string
@@ -128,7 +131,7 @@ def baselines(strings):
 
 
 def enumerate_cases(tier, seed):
-    n = 4 if tier == "quick" else 6
+    n = 4 if tier == "quick" else 7
     strings = STRINGS[:n]
     k = seed % len(strings)
     strings = strings[k:] + strings[:k]
